@@ -1,6 +1,7 @@
 package props
 
 import (
+	"bytes"
 	"context"
 	"crypto/sha256"
 	"errors"
@@ -784,12 +785,14 @@ func c13VMUnits(tier string) []hx.Unit {
 			ctx := context.Background()
 			pk := []phase0.BLSPubKey{c13Key("W", "v1"), c13Key("W", "v2"), c13Key("W", "v3")}
 			idx := []phase0.ValidatorIndex{3, 7, 11}
+			const idxB1 = phase0.ValidatorIndex(8)
 			setA := map[phase0.BLSPubKey]*apiv1.Validator{
 				pk[0]: c13Validator(pk[0], idx[0], c13Rec{act: 0, exit: c13FFE, wd: c13FFE}),
 				pk[1]: c13Validator(pk[1], idx[1], c13Rec{act: 1, exit: c13FFE, wd: c13FFE}),
 			}
 			setB := map[phase0.BLSPubKey]*apiv1.Validator{
-				pk[1]: c13Validator(pk[1], idx[1], c13Rec{act: 1, exit: 3, wd: 5}),
+				// in set B the second key is reported under another index (its deposit was re-ordered by a reorg)
+				pk[1]: c13Validator(pk[1], idxB1, c13Rec{act: 1, exit: 3, wd: 5}),
 				pk[2]: c13Validator(pk[2], idx[2], c13Rec{act: 2, exit: c13FFE, wd: c13FFE}),
 			}
 			prov := &c13Provider{}
@@ -836,7 +839,11 @@ func c13VMUnits(tier string) []hx.Unit {
 				check := func(what string, res map[phase0.ValidatorIndex]*phase0.Validator) {
 					for i := range pk {
 						want, must := last[pk[i]]
-						got, in := res[idx[i]]
+						wi := idx[i]
+						if must {
+							wi = want.Index // the index under which the key was last delivered
+						}
+						got, in := res[wi]
 						switch {
 						case must && !in:
 							st.bad("C13/refresh/vm-"+cause, "%s does not return validator %d %s", what, idx[i], where)
@@ -849,18 +856,28 @@ func c13VMUnits(tier string) []hx.Unit {
 						}
 					}
 					for i := range res {
-						if i != idx[0] && i != idx[1] && i != idx[2] {
+						if i != idx[0] && i != idx[1] && i != idx[2] && i != idxB1 {
 							st.bad("C13/refresh/vm-wrong-index", "%s returns index %d, which no delivered validator has, %s", what, i, where)
 						}
 					}
 				}
 				check("ValidatorsByPubKey", vm.ValidatorsByPubKey(ctx, pk))
-				check("ValidatorsByIndex", vm.ValidatorsByIndex(ctx, idx))
+				check("ValidatorsByIndex", vm.ValidatorsByIndex(ctx, append(append([]phase0.ValidatorIndex{}, idx...), idxB1)))
+				// a key is reported under one index only: the one of the last delivery
+				if v, both := last[pk[1]]; both {
+					other := idx[1]
+					if v.Index == idx[1] {
+						other = idxB1
+					}
+					if got, in := vm.ValidatorsByPubKey(ctx, pk)[other]; in && got != nil && got.PublicKey == pk[1] {
+						st.bad("C13/refresh/vm-stale-index", "ValidatorsByPubKey reports the second key under index %d; the beacon node last delivered it under index %d, %s", other, v.Index, where)
+					}
+				}
 				for i := range pk {
 					if want, must := last[pk[i]]; must {
 						r := c13Rec{want.Validator.ActivationEpoch, want.Validator.ExitEpoch, want.Validator.WithdrawableEpoch, want.Validator.Slashed, want.Validator.EffectiveBalance == 0}
 						for e := phase0.Epoch(0); e <= 3; e++ {
-							state, err := vm.ValidatorStateAtEpoch(ctx, idx[i], e)
+							state, err := vm.ValidatorStateAtEpoch(ctx, want.Index, e)
 							if err != nil {
 								st.bad("C13/refresh/vm-"+cause, "ValidatorStateAtEpoch(%d, %d) fails (%v) %s", idx[i], e, err, where)
 								break
@@ -1125,7 +1142,9 @@ func c13WalletRefreshUnits(tier string) []hx.Unit {
 	if tier == "thorough" {
 		depth = 4
 	}
-	accOps := []string{"A", "B"}
+	// the wallet offers {Val1,Val2}, {Val2,Val3}, or {Val1 and Val2's key re-filed under the name old2, which the
+	// specifier W/Val.* does not cover}
+	accOps := []string{"A", "B", "C"}
 	// beacon node: answers with Val2 active for ever / with Val2 exited from epoch 3 (a voluntary exit seen since the
 	// last refresh) / answers nothing / fails
 	valOps := []string{"answer", "answer-exited", "empty", "error"}
@@ -1156,7 +1175,7 @@ func c13WalletRefreshUnits(tier string) []hx.Unit {
 				}
 				vm := c13NewVM(prov)
 				wW := &c13Wallet{name: "W"}
-				svc := walletam.VerifNewService([]string{"W"}, [][]byte{[]byte("pw")}, vm, c13ChainTime(), c13FFE, 2)
+				svc := walletam.VerifNewService([]string{"W/Val.*"}, [][]byte{[]byte("pw")}, vm, c13ChainTime(), c13FFE, 2)
 				var log []string
 				failed := false
 				val2Exited, val2Known := false, false // Val2's record as the beacon node last delivered it
@@ -1169,10 +1188,19 @@ func c13WalletRefreshUnits(tier string) []hx.Unit {
 						}
 						a, v = c/len(valOps), c%len(valOps)
 					}
-					if accOps[a] == "A" {
+					switch accOps[a] {
+					case "A":
 						wW.offer = []e2wtypes.Account{c13NewAccount("W", "Val1"), c13NewAccount("W", "Val2")}
-					} else {
+					case "B":
 						wW.offer = []e2wtypes.Account{c13NewAccount("W", "Val2"), c13NewAccount("W", "Val3")}
+					default:
+						wW.offer = []e2wtypes.Account{c13NewAccount("W", "Val1"), &c13Account{wallet: "W", name: "old2", key: c13Key("W", "Val2")}}
+					}
+					offeredMatching := map[phase0.BLSPubKey]bool{}
+					for _, acc := range wW.offer {
+						if ca := acc.(*c13Account); strings.HasPrefix(ca.name, "Val") {
+							offeredMatching[ca.key] = true
+						}
 					}
 					prov.mode = []int{c13Answer, c13Answer, c13EmptyMap, c13Error}[v]
 					k2 := c13Key("W", "Val2")
@@ -1181,7 +1209,11 @@ func c13WalletRefreshUnits(tier string) []hx.Unit {
 					} else {
 						prov.table[k2] = c13Validator(k2, recs["W/Val2"].idx, c13Rec{act: 0, exit: c13FFE, wd: c13FFE})
 					}
-					if v <= 1 {
+					if !offeredMatching[k2] {
+						// Val2 is not an account in this refresh: the beacon node is not asked about it, and what it said
+						// earlier may rightly be forgotten
+						val2Known = false
+					} else if v <= 1 {
 						val2Exited, val2Known = valOps[v] == "answer-exited", true
 					}
 					failed = failed || v > 1
@@ -1190,6 +1222,11 @@ func c13WalletRefreshUnits(tier string) []hx.Unit {
 					svc.VerifRefreshFromWallets(ctx, []e2wtypes.Wallet{wW})
 					_ = svc.VerifRefreshValidators(ctx)
 					held := svc.VerifAccounts()
+					for _, k := range keysSortedPub(held) {
+						if !offeredMatching[k] {
+							st.bad("C13/refresh/wallet-account-not-offered-under-matching-name", "the wallet manager holds an account for a key that the wallet did not offer under a name matching W/Val.* in this refresh, %s", where)
+						}
+					}
 					isHeld := func(acc e2wtypes.Account) bool {
 						if acc == nil {
 							return false
@@ -1199,8 +1236,8 @@ func c13WalletRefreshUnits(tier string) []hx.Unit {
 						_, ok := held[k]
 						return ok
 					}
-					// Val2 is offered by the wallet in every step: at epoch 4 it validates exactly if the record the
-					// beacon node last delivered for it has no exit before then
+					// while Val2 is offered by the wallet: at epoch 4 it validates exactly if the record the beacon node last
+					// delivered for it (since it was last absent) has no exit before then
 					if val2Known {
 						d4, err4 := svc.ValidatingAccountsForEpoch(ctx, 4)
 						_, in := d4[recs["W/Val2"].idx]
@@ -1258,6 +1295,15 @@ func c13WalletRefreshUnits(tier string) []hx.Unit {
 // group 3d: a large collection: one wallet offering 501 / 1200 accounts (thorough also 499, 500, 2001), all with an
 // active validator: the dirk manager's Refresh makes every one of them a validating account (directly and by
 // index), and the same through the wallet manager.
+func keysSortedPub[V any](m map[phase0.BLSPubKey]V) []phase0.BLSPubKey {
+	out := make([]phase0.BLSPubKey, 0, len(m))
+	for k := range m {
+		out = append(out, k)
+	}
+	sort.Slice(out, func(i, j int) bool { return bytes.Compare(out[i][:], out[j][:]) < 0 })
+	return out
+}
+
 func c13ManyAccountsUnits(tier string) []hx.Unit {
 	sizes := []int{501, 1200}
 	if tier == "thorough" {
